@@ -24,7 +24,8 @@ WellFormed(t, e) == /\ e.src \in Roles /\ e.dst \in Roles /\ e.shape \in Shapes 
 
 (* Gateway._restore_cached_packets() feeds a temporary protocol to which no application handler is
    attached: at that level only "gives rise to a device" can be observed.                          *)
-DeliveryObservable(t) == t.lvl # "restore"
+\* ("app": the application - or a payload naming a device - asks Gateway.get_device() for an id directly: no packet)
+DeliveryObservable(t) == t.lvl \notin {"restore", "app"}
 
 (* "... nor gives rise to a device".  Where delivery is observable a dropped packet must leave no new
    device at all.  In the restore path the library deliberately does not enforce the known list in the
